@@ -384,12 +384,28 @@ class ScriptedProtocol(IProtocol):
         elif k == "speed":
             p.send_mobility_command(SetSpeedMobilityCommand(_num(a[1])))
         elif k == "range":
+            if CTX.scenario.get("two_controllers"):
+                # the protocol's own controller and a helper's: two kept objects, used alternately
+                pair = self.__dict__.setdefault("_controllers", [CommunicationController(self), CommunicationController(self)])
+                self._turn = getattr(self, "_turn", 0) + 1
+                pair[self._turn % 2].set_transmission_range(_num(a[1]))
+                return
             if self._controller is None or CTX.scenario.get("fresh_controllers"):
                 # (in that mode) a new controller object for every request, as code that builds one on the spot does
                 self._controller = CommunicationController(self)
             self._controller.set_transmission_range(_num(a[1]))
         elif k == "flag":
-            self.flag = bool(a[1])
+            sim = getattr(CTX, "sim", None)
+            if CTX.scenario.get("cross_flags") and sim is not None:
+                # what the assertions read about node (me + 1) is written here, by another node's callback
+                # (the next node of the same protocol type, cyclically: per type, the set of flags is what it would be)
+                nodes = CTX.scenario["nodes"]
+                me = p.get_id()
+                same = [i for i, nd in enumerate(nodes) if nd["ty"] == nodes[me]["ty"]]
+                holder = same[(same.index(me) + 1) % len(same)]
+                sim.get_node(holder).protocol_encapsulator.protocol.flag = bool(a[1])
+            else:
+                self.flag = bool(a[1])
         else:
             raise AssertionError(a)
 
@@ -679,11 +695,13 @@ def run_sim_impl(sc, variant=None):
                     late.append(lambda mc=mc: (setattr(mc, "update_rate", _num(rate)), setattr(mc, "default_speed", _num(speed)),
                                                setattr(mc, "reference_coordinates", tuple(ref))))
                 elif h == "C":
-                    b.add_handler(CommunicationHandler(_shared_config(("med", rng, delay, fail, bool(sc.get("int_numbers"))), lambda: CommunicationMedium(
-                        transmission_range=_num(rng), delay=_num(delay), failure_rate=_num(fail)))))
+                    b.add_handler(CommunicationHandler(_shared_config(("med", rng, delay, fail, bool(sc.get("int_numbers")), bool(sc.get("positional_config"))),
+                        (lambda: CommunicationMedium(_num(rng), _num(delay), _num(fail))) if sc.get("positional_config") else
+                        (lambda: CommunicationMedium(transmission_range=_num(rng), delay=_num(delay), failure_rate=_num(fail))))))
                 elif h == "M":
-                    b.add_handler(MobilityHandler(_shared_config(("mob", rate, speed, tuple(ref), bool(sc.get("int_numbers"))), lambda: MobilityConfiguration(
-                        update_rate=_num(rate), default_speed=_num(speed), reference_coordinates=tuple(ref)))))
+                    b.add_handler(MobilityHandler(_shared_config(("mob", rate, speed, tuple(ref), bool(sc.get("int_numbers")), bool(sc.get("positional_config"))),
+                        (lambda: MobilityConfiguration(_num(rate), _num(speed), tuple(ref))) if sc.get("positional_config") else
+                        (lambda: MobilityConfiguration(update_rate=_num(rate), default_speed=_num(speed), reference_coordinates=tuple(ref))))))
                 elif h == "A":
                     b.add_handler(AssertionHandler([make_assertion(i, s) for i, s in enumerate(sc["asserts"])]))
                 elif h.startswith("R"):
